@@ -1,0 +1,23 @@
+//go:build verif
+
+// Contracts for govc (contract-based deductive verification); comments only.
+package priority
+
+//@ import pgi "github.com/NVIDIA/KAI-scheduler/pkg/scheduler/api/podgroup_info"
+
+// sign convention of the job comparators: -1 = l is ordered first.
+//@ define prioCmp(lp int, rp int) int = ite(lp > rp, 0 - 1, ite(lp < rp, 1, 0))
+
+// C16: "the allocate action never places a lower-priority one while leaving a higher-priority one
+// unplaced": the priority comparator orders the strictly higher priority first and is neutral on
+// equal priority (so that creation time / UID decide).
+//@ func JobOrderFn
+//@   props C16
+//@   requires typeis(l, "*pgi.PodGroupInfo") && typeis(r, "*pgi.PodGroupInfo")
+//@   requires unbox(l, "*pgi.PodGroupInfo") != nil && unbox(r, "*pgi.PodGroupInfo") != nil
+//@   pure
+//@   ensures result == prioCmp(unbox(l, "*pgi.PodGroupInfo").Priority, unbox(r, "*pgi.PodGroupInfo").Priority)
+//@   ensures [higherFirst] unbox(l, "*pgi.PodGroupInfo").Priority > unbox(r, "*pgi.PodGroupInfo").Priority <==> result < 0
+//@   ensures [equalNeutral] unbox(l, "*pgi.PodGroupInfo").Priority == unbox(r, "*pgi.PodGroupInfo").Priority <==> result == 0
+//@   lemma [antisym] result == 0 - prioCmp(unbox(r, "*pgi.PodGroupInfo").Priority, unbox(l, "*pgi.PodGroupInfo").Priority)
+//@ end
